@@ -1,6 +1,9 @@
 (* YeeFull.v — executable model of the fully anisotropic (9-component) LOSSLESS update branch (no proofs in this file).
-   Source map (uniform grid):
-     fdtd/misc.py avg_anisotropic_E_component / avg_anisotropic_H_component  -> avgE / avgH (four-point means on the padded array)
+   Source map (uniform and stretched grids):
+     fdtd/misc.py avg_anisotropic_E_component / avg_anisotropic_H_component  -> avgE / avgH (co-location averages on the padded array:
+        the half step from cell centre to edge is weighted by the widths of the two cells involved, the other half step is a midpoint;
+        with all widths equal this is the four-point mean of the uniform branch — equal in the field, so one definition serves both branches)
+     fdtd/update.py get_anisotropic_averaging_widths (edge-replicated width halo)  -> wsel / pwsel
      fdtd/misc.py compute_anisotropic_update_matrices with sigma = None      -> A = I, B = c * inv_material (3x3 per cell)
      fdtd/update.py update_E / update_H "Full anisotropic case"              -> update_E_full / update_H_full
      fdtd/update.py update_E_reverse / update_H_reverse (same branch)        -> update_E_rev_full / update_H_rev_full
@@ -30,14 +33,25 @@ Section Full.
     | S O => fun i j k => prv K (ny K sc) (loy K sc) (fun q => f i q k) j
     | _ => fun i j k => prv K (nz K sc) (loz K sc) (fun q => f i j q) k
     end.
-  Definition quarter : car K := 1 / (two K * two K).
+  Definition half : car K := 1 / two K.
+  (* width of the cell along axis a, and of the cell before it (the width halo replicates the edge cell: pred 0 = 0) *)
+  Definition wsel (a i j k : nat) : car K := match a with O => wx K sc i | S O => wy K sc j | _ => wz K sc k end.
+  Definition pwsel (a i j k : nat) : car K :=
+    match a with O => wx K sc (Nat.pred i) | S O => wy K sc (Nat.pred j) | _ => wz K sc (Nat.pred k) end.
+  (* (pw * a + w * b) / (w + pw) *)
+  Definition wmix (w pw : car K) (a b : C) : C := cscal (1 / (w + pw)) (cadd (cscal pw a) (cscal w b)).
 
-  (* component c of an E-type field averaged onto the Yee location of component l: samples x, x+e_l, x-e_c, x+e_l-e_c *)
+  (* component c of an E-type field averaged onto the Yee location of component l:
+     centered = midpoint of (x, x+e_l); result = width-weighted mix of centered(x) and centered(x-e_c) along axis c *)
   Definition avgE (f : A3 K) (c l : nat) : A3 K :=
-    fun i j k => cscal quarter (cadd (cadd (cadd (f i j k) (shp l f i j k)) (shm c f i j k)) (shp l (shm c f) i j k)).
-  (* component c of an H-type field averaged onto the location of component l: samples x, x-e_l, x+e_c, x-e_l+e_c *)
+    fun i j k => wmix (wsel c i j k) (pwsel c i j k)
+                   (cscal half (cadd (f i j k) (shp l f i j k)))
+                   (cscal half (cadd (shm c f i j k) (shp l (shm c f) i j k))).
+  (* component c of an H-type field averaged onto the location of component l:
+     on_edge = width-weighted mix of (x, x-e_l) along axis l; result = midpoint of on_edge(x) and on_edge(x+e_c) *)
   Definition avgH (f : A3 K) (c l : nat) : A3 K :=
-    fun i j k => cscal quarter (cadd (cadd (cadd (f i j k) (shm l f i j k)) (shp c f i j k)) (shm l (shp c f) i j k)).
+    fun i j k => cscal half (cadd (wmix (wsel l i j k) (pwsel l i j k) (f i j k) (shm l f i j k))
+                                  (wmix (wsel l i j k) (pwsel l i j k) (shp c f i j k) (shm l (shp c f) i j k))).
 
   Definition comp (v : V3 K) (r : nat) : A3 K := match r with O => vx v | S O => vy v | _ => vz v end.
   Definition at_loc (avg : A3 K -> nat -> nat -> A3 K) (v : V3 K) (r s : nat) : A3 K :=
